@@ -206,6 +206,27 @@ pub fn run(p: &[String]) -> Vec<String> {
             }
             out
         }
+        "defined_name_edit" => {
+            // address edited op axis p n : a sheet-scoped defined name on a real workbook, edited through the public API
+            let (addr, edited, op, axis, pp, n) = (unhex(&p[1]), unhex(&p[2]), unhex(&p[3]), unhex(&p[4]), u(&p[5]), u(&p[6]));
+            let mut book = umya_spreadsheet::new_file_empty_worksheet();
+            for name in ["Data", "Other", "My Sheet"] {
+                book.new_sheet(name).unwrap();
+            }
+            book.get_sheet_by_name_mut(&edited).unwrap().add_defined_name("N".to_string(), addr).unwrap();
+            let ws = book.get_sheet_by_name_mut(&edited).unwrap();
+            match (op.as_str(), axis.as_str()) {
+                ("insert", "row") => ws.insert_new_row(&pp, &n),
+                ("insert", "col") => ws.insert_new_column_by_index(&pp, &n),
+                ("remove", "row") => ws.remove_row(&pp, &n),
+                ("remove", "col") => ws.remove_column_by_index(&pp, &n),
+                _ => panic!("bad op"),
+            }
+            match ws.get_defined_names().first() {
+                Some(d) => vec![hex(&d.get_address())],
+                None => vec![hex("<dropped>")],
+            }
+        }
         // ---- C09
         "parse_render" => vec![hex(&va::parse_render(&unhex(&p[1])))],
         "parse_tokens" => {
